@@ -492,9 +492,15 @@ class Inv:
                 continue
             b = (p[0] + sign * nx * (d - 0.02), p[1] + sign * ny * (d - 0.02))
             bq = sg.Point(b)
+            # (polygons of neighbouring lane groups / roads may overlap the border by a few centimetres,
+            # and then the point belongs to both: only points that lie in this lane, its group and its road
+            # alone are judged)
             others = [x for x in (net.elements[net._uidForIndex[j]] for j in
                                   net._rtree.query(bq.buffer(1e-9), predicate="intersects"))
-                      if isinstance(x, rd.Lane) and x is not lane]
+                      if (isinstance(x, rd.Lane) and x is not lane)
+                      or (isinstance(x, rd.LaneGroup) and x is not lane.group)
+                      or (isinstance(x, rd.Road) and x is not lane.road)
+                      or isinstance(x, rd.Intersection)]
             if others or not lane.polygons.contains(bq):
                 self.st["unjudged:direction-border-point"] += 1
                 continue
